@@ -81,7 +81,7 @@ struct RefCycle {
         Vector<double> rc = zeros(n(1));
         I.applyExtrapolatedRestriction(L[0], L[1], rc, r);
         Vector<double> xc = zeros(n(1));
-        I.applyInjection(L[0], L[1], xc, x);
+        inject(0, xc, x);
         Vector<double> r1 = zeros(n(1));
         L[1].computeResidual(r1, rhs1, xc);
         linear_combination(rc, 4.0 / 3.0, r1, -1.0 / 3.0); // rc = 4/3 rc - 1/3 r1
@@ -103,6 +103,15 @@ struct RefCycle {
         for (int i = 0; i < post; i++)
             smooth0(x, rhs0);
     }
+    // injection written here from the definition (coarse node (i,j) = fine node (2i,2j)), through the grids' index functions
+    void inject(int d, Vector<double>& coarse, const Vector<double>& fine) const
+    {
+        const PolarGrid& fg = L[d].grid();
+        const PolarGrid& cg = L[d + 1].grid();
+        for (int i = 0; i < cg.nr(); i++)
+            for (int j = 0; j < cg.ntheta(); j++)
+                coarse[cg.index(i, j)] = fine[fg.index(2 * i, 2 * j)];
+    }
     // The discretised right-hand sides of ALL levels, built here from the problem data with the solver's two per-level
     // routines (sample the source/boundary data on the finest level, inject node values down, discretise each level):
     // which levels setup() chose to equip with a right-hand side is exactly what the reference must not depend on.
@@ -113,7 +122,7 @@ struct RefCycle {
             f.push_back(zeros(n(d)));
         GMGPolarVerifAccess::buildRhs(g, L[0], f[0]);
         for (int d = 0; d + 1 < nlev; d++)
-            I.applyInjection(L[d], L[d + 1], f[d + 1], f[d]);
+            inject(d, f[d + 1], f[d]);
         for (int d = 0; d < nlev; d++)
             GMGPolarVerifAccess::discretizeRhs(g, L[d], f[d]);
         return f;
